@@ -81,6 +81,8 @@ def run_cli(ctx, argv, data, chan, idx):
                     rc = main(["fickling"] + argv + [path])
                 except SystemExit as e:
                     rc = e.code if isinstance(e.code, int) else 2
+                except Exception:  # noqa: BLE001 - an exception that escapes main() ends the process with status 1
+                    rc = 1
         finally:
             sys.stdout = old
         return int(rc or 0), out.buffer.getvalue()
